@@ -80,10 +80,16 @@ def run(tier):
          {"cfg": "n0", "batches": ["b1y", "b2"]}],
         [{"cfg": "t0", "batches": ["b1"]}, {"cfg": "n0", "batches": ["b1"]}, {"cfg": "n5", "batches": ["b1"]},
          {"cfg": "t5", "batches": ["b1"]}],
+        # malformed rows: the same valid rows around different / no malformed rows, across runs and within one call
+        [{"cfg": "n0", "batches": ["bm1"]}, {"cfg": "n0", "batches": ["bm2"]}, {"cfg": "n0", "batches": ["b1"]},
+         {"cfg": "n0", "batches": ["bm3"]}, {"cfg": "n0", "batches": ["bm1"]}],
+        [{"cfg": "n0", "batches": ["b1"]}, {"cfg": "n0", "batches": ["bm2"]}, {"cfg": "t0", "batches": ["bm4"]},
+         {"cfg": "t0", "batches": ["bm4", "bm1"]}],
     ]
     plan = {"keys": [["b1", "t0"], ["b1", "t5"], ["b2", "t0"], ["b2", "t5"], ["b3", "t0"], ["b3", "t9"], ["b1", "c0"],
                      ["b3", "t5"], ["b1", "t9"], ["b1x", "t0"], ["b1y", "t0"], ["b1y", "t5"], ["b3x", "t0"],
-                     ["b1", "n0"], ["b2", "n0"], ["b1", "n5"], ["b2", "n5"], ["b1x", "n0"], ["b1y", "n0"]],
+                     ["b1", "n0"], ["b2", "n0"], ["b1", "n5"], ["b2", "n5"], ["b1x", "n0"], ["b1y", "n0"],
+                     ["bm1", "n0"], ["bm2", "n0"], ["bm3", "n0"]],
             "states": plan_states, "histories": plan_h, "prefix_step": 211 if tier == "quick" else 7}
     pf = os.path.join(wd, "plan.json")
     with open(pf, "w") as f:
